@@ -15,7 +15,7 @@ Definition ssrc_fin (s : ssrc) : Prop :=
 Definition ssrc_ok (ae : bool) (s : ssrc) : Prop :=
   match s with
   | SSIter _ => True
-  | SSScript evs | SSScriptNC evs => no_fatal evs /\ (ae = false -> no_transient evs)
+  | SSScript evs | SSScriptNC evs => script_ok evs /\ (ae = false -> no_transient evs)
   end.
 
 Fixpoint sden (s : sst) : list Z :=
@@ -72,14 +72,15 @@ with slok (ae : bool) (q : slst) : Prop :=
   | TRuns _ _ _ _ p => sok ae (pk_in p)
   end.
 
-(* one Next of a script without fatal errors (whoever asks, with whatever context) *)
+(* one Next of a script without fatal errors and panics (whoever asks, with whatever context) *)
 Lemma script_next_contract ae evs o evs' :
-  no_fatal evs /\ (ae = false -> no_transient evs) -> script_next evs = (o, evs') ->
-  (no_fatal evs' /\ (ae = false -> no_transient evs')) /\
+  script_ok evs /\ (ae = false -> no_transient evs) -> script_next evs = (o, evs') ->
+  (script_ok evs' /\ (ae = false -> no_transient evs')) /\
   post ae script_den (fun e => e = []) evs o evs' /\
   (evs = [] -> evs' = [] /\ quiet ae o).
 Proof.
-  intros Hok Hc. destruct evs as [|[x|e|e] t]; simpl in Hc; injection Hc as ? ?; subst;
+  unfold script_ok, script_nopanic.
+  intros Hok Hc. destruct evs as [|[x|e|e|] t]; simpl in Hc; injection Hc as ? ?; subst;
     simpl in *.
   - auto.
   - destruct Hok as [H1 H2]. split; [auto|]. split; [reflexivity|]. intros Hx; discriminate.
@@ -87,7 +88,8 @@ Proof.
     + split; [split; [exact H1|intros Hx; discriminate]|]. split; [auto|].
       intros Hx; discriminate.
     + destruct (H2 eq_refl).
-  - destruct Hok as [[] _].
+  - destruct Hok as [[[] _] _].
+  - destruct Hok as [[_ Hx] _]. discriminate Hx.
 Qed.
 
 (* A source that looks at the context may fail with the context error only when failures are
@@ -191,7 +193,7 @@ Lemma script_next_size evs o evs' :
   (match o with Item _ => length evs' < length evs | _ => length evs' <= length evs end)%nat
   /\ o <> Out.
 Proof.
-  destruct evs as [|[x|e|e] t]; simpl; intros Hc; injection Hc as ? ?; subst; simpl;
+  destruct evs as [|[x|e|e|] t]; simpl; intros Hc; injection Hc as ? ?; subst; simpl;
     split; try lia; discriminate.
 Qed.
 
@@ -441,11 +443,16 @@ Qed.
    same call or keeps in its state - [snext_contract] says so call by call ([post]: an Item
    moves exactly one item out of the denotation, an error leaves the denotation as it is). *)
 Lemma erase_transient_den evs : script_den (erase_transient evs) = script_den evs.
-Proof. induction evs as [|[x|e|e] t IH]; simpl; auto. rewrite IH. reflexivity. Qed.
+Proof. induction evs as [|[x|e|e|] t IH]; simpl; auto. rewrite IH. reflexivity. Qed.
 
 Lemma erase_transient_ok evs :
-  no_fatal evs -> no_fatal (erase_transient evs) /\ no_transient (erase_transient evs).
-Proof. induction evs as [|[x|e|e] t IH]; simpl; auto. intros []. Qed.
+  script_ok evs -> script_ok (erase_transient evs) /\ no_transient (erase_transient evs).
+Proof.
+  unfold script_ok, script_nopanic.
+  induction evs as [|[x|e|e|] t IH]; simpl; auto.
+  - intros [[] _].
+  - intros [_ Hx]. discriminate Hx.
+Qed.
 
 Lemma src_erase_items s : src_items (src_erase s) = src_items s.
 Proof. destruct s; simpl; try reflexivity; apply erase_transient_den. Qed.
